@@ -16,9 +16,11 @@ PPieceTok(q, s, a0, x, j) == LET a == a0 + j * q.max  b == PMin2(a + q.max - 1, 
         IF (b2 - a + 1 >= q.min) \/ (~q.strict /\ j > 0) THEN <<[start |-> a, end |-> b2]>> ELSE <<>>
 RECURSIVE PPieces(_, _, _, _, _)
 PPieces(q, s, a0, x, j) == IF a0 + j * q.max > x THEN <<>> ELSE PPieceTok(q, s, a0, x, j) \o PPieces(q, s, a0, x, j + 1)
+RECURSIVE PFirstValid(_, _)
+PFirstValid(s, i) == IF i >= Len(s) THEN Len(s) ELSE IF V(s, i) THEN i ELSE PFirstValid(s, i + 1)
 RECURSIVE PSeg(_, _, _)
-PSeg(q, s, i) == LET vs == {k \in i..(Len(s) - 1) : V(s, k)} IN IF vs = {} THEN <<>>
-                 ELSE LET a0 == PSetMin(vs)  e == PStretchEnd(q, s, a0)  x == PMin2(e + q.sil, Len(s) - 1) IN
+PSeg(q, s, i) == LET a0 == PFirstValid(s, i) IN IF a0 >= Len(s) THEN <<>>
+                 ELSE LET e == PStretchEnd(q, s, a0)  x == PMin2(e + q.sil, Len(s) - 1) IN
                       PPieces(q, s, a0, x, 0) \o PSeg(q, s, x + 1)
 SegOf(q, s) == PSeg(q, s, 0)
 =========================================================================
